@@ -455,10 +455,18 @@ theorem panicSites_placed :
 /-- Termination of the code itself: the only recursions in /repo/src are `dereference` calling itself
     once on the referent of a `Type::Reference`, and `ungroup` (added by the repair of the macro-fragment
     defect, `fix:` commit in /repo) calling itself once on the element of a `Type::Group` — both on a
-    strictly smaller type that syn has already parsed; and there is no `loop` / `while`; every other
-    iteration is a `for` over a finite collection. -/
+    strictly smaller type that syn has already parsed - and `printable` (`common/tools/hash_type.rs`, added by the
+    repair of the `Into(&'static $t)` panic), which calls itself on the content of a token group, a strictly smaller
+    token stream; and there is no `loop` / `while`; every other iteration is a `for` over a finite collection. -/
 theorem recursion_sites :
-    Generated.selfCalls = [("common/type.rs", "ungroup"), ("common/type.rs", "dereference")] ∧ Generated.openLoops = [] := by decide
+    Generated.selfCalls = [("common/tools/hash_type.rs", "printable"), ("common/type.rs", "ungroup"), ("common/type.rs", "dereference")]
+      ∧ Generated.openLoops = [] := by decide
+
+/-- **No `debug_assert!` does any work**: the argument of none of the `debug_assert!`s of /repo/src calls a mutating
+    method or assigns (regenerated table; the translator lists the offenders). A proc-macro built by cargo's release
+    profile has its debug assertions compiled out, so a statement hidden in one (`debug_assert!(map.insert(..).is_none())`)
+    would make the macro behave differently there than in the builds the tests and these checks use. -/
+theorem debug_asserts_pure : Generated.debugAssertEffects = [] ∧ 0 < Generated.debugAssertCount := by decide
 
 /-! ### the handlers and `derive_input_handler` as a whole
 
